@@ -187,6 +187,46 @@ impl<M: Fn(CharClassID, char) -> bool> Clone for ScannerImpl<M> {
 }
 ''', label='trusted: derived Clone of ScannerImpl is structural')
 
+
+# ---- the remaining public accessors and delegations (a change in any of them is visible through the API the properties are observed at)
+WPI = "<'h> WithPositions<FindMatches<'h>>"
+F_SPAN = 'scnr/src/span.rs'
+
+def wp(name, inner, props, impl, ret=None):
+    return Fn(F_WP, impl, name, ret=(ret if ret is not None else inner.ret) or None, spec=lift(inner.spec, 'iter'), props=props, impl_as=WPI, qual_as='WithPositions')
+
+wp_new = Fn(F_WP, 'WithPositions<I>', 'new', ret='r', impl_as=WPI, qual_as='WithPositions', props=['C09'], spec='ensures r.iter == iter',
+            sig_replace=[('iter : I', "iter: FindMatches<'h>")])
+wp_set_mode = wp('set_mode', fm_set_mode, ['C06'], 'ScannerModeSwitcher for WithPositions<I>')
+wp_current_mode = wp('current_mode', fm_current_mode, ['C06'], 'ScannerModeSwitcher for WithPositions<I>')
+wp_mode_name = wp('mode_name', fm_mode_name, ['C06'], 'ScannerModeSwitcher for WithPositions<I>')
+wp_position = wp('position', fm_position, ['C09'], 'PositionProvider for WithPositions<I>')
+fm_set_offset_pp = wrap('set_offset', it.set_offset, ['C10', 'C09'], impl="PositionProvider for FindMatches<'_>")
+fm_set_offset_pp.rename = 'set_offset__pp'
+wp_set_offset = Fn(F_WP, 'PositionProvider for WithPositions<I>', 'set_offset', spec=lift(fm_set_offset_pp.spec, 'iter'), props=['C10', 'C09'], impl_as=WPI, qual_as='WithPositions',
+                   edits=[Replace('E9', 'self.iter.set_offset(offset)', 'self.iter.set_offset__pp(offset)', why='trait dispatch: PositionProvider::set_offset of FindMatches (the inherent method of the same name takes precedence in the single-file unit)')])
+
+sc_current_mode = Fn(F_SC, 'ScannerModeSwitcher for Scanner', 'current_mode', ret='r', as_inherent=True, spec=lift(mode.current_mode.spec, 'inner'), props=['C06', 'C12'])
+sc_set_mode = Fn(F_SC, 'ScannerModeSwitcher for Scanner', 'set_mode', as_inherent=True, spec=lift(mode.set_mode.spec, 'inner'), props=['C06', 'C12'])
+sc_mode_name = Fn(F_SC, 'ScannerModeSwitcher for Scanner', 'mode_name', ret='r', as_inherent=True, spec=lift(mode.mode_name.spec, 'inner'), props=['C06'])
+
+ACC = ['C01', 'C07', 'C09']
+accessors = [
+    Fn(F_MATCH, 'Match', 'range', ret='r', props=ACC, spec='ensures r.start == self.span.start, r.end == self.span.end'),
+    Fn(F_SPAN, 'Span', 'range', ret='r', props=ACC, spec='ensures r.start == self.start, r.end == self.end'),
+    Fn(F_MATCH, 'MatchExt', 'start', ret='r', props=ACC, spec='ensures r == self.span.start'),
+    Fn(F_MATCH, 'MatchExt', 'end', ret='r', props=ACC, spec='ensures r == self.span.end'),
+    Fn(F_MATCH, 'MatchExt', 'span', ret='r', props=ACC, spec='ensures r == self.span'),
+    Fn(F_MATCH, 'MatchExt', 'range', ret='r', props=ACC, spec='ensures r.start == self.span.start, r.end == self.span.end'),
+    Fn(F_MATCH, 'MatchExt', 'len', ret='r', props=ACC, spec='ensures r == (if self.span.end >= self.span.start { self.span.end - self.span.start } else { 0 })'),
+    Fn(F_MATCH, 'MatchExt', 'is_empty', ret='r', props=ACC, spec='ensures r == (self.span.start >= self.span.end)'),
+    Fn(F_MATCH, 'MatchExt', 'token_type', ret='r', props=ACC, spec='ensures r == self.token_type'),
+    Fn(F_MATCH, 'MatchExt', 'start_position', ret='r', props=['C09'], spec='ensures r == self.start_position'),
+    Fn(F_MATCH, 'MatchExt', 'end_position', ret='r', props=['C09'], spec='ensures r == self.end_position'),
+    Fn(F_POS, 'Position', 'line', ret='r', props=['C09'], spec='ensures r == self.line'),
+    Fn(F_POS, 'Position', 'column', ret='r', props=['C09'], spec='ensures r == self.column'),
+]
+
 base_items = []
 for x in it.UNIT['items']:
     if isinstance(x, Fn) and x.impl == it.IMPL:
@@ -209,5 +249,7 @@ UNIT = dict(
         fm_new, fm_with_offset, fm_set_offset, fm_offset, fm_next_match, fm_peek_n, fm_advance_to, fm_next, fm_position, fm_set_mode, fm_current_mode, fm_mode_name,
         with_positions_next,
         find_iter,
-    ],
+        fm_set_offset_pp, wp_new, wp_set_mode, wp_current_mode, wp_mode_name, wp_position, wp_set_offset,
+        sc_current_mode, sc_set_mode, sc_mode_name,
+    ] + accessors,
 )
